@@ -56,8 +56,22 @@ func (m *MessageCopyFromGenerator) Generate(writer io.Writer) (int, error) {
 func (m *MessageCopyFromGenerator) GenerateFields(g *j.Group) {
 	// Reset all oneOf fields in advance, otherwise if all oneOf branches would be null in the passed
 	// object, the oneOf field won't be nil
+	oneOfs := make(map[string]struct{})
 	for _, m := range m.OneOfNames {
+		oneOfs[m] = struct{}{}
 		g.Add(j.Id("obj." + m).Op("=").Nil())
+	}
+	// The same goes for the oneOf fields promoted from non-nullable embedded messages
+	// (a nullable embedded message is reset as a whole below)
+	for _, f := range m.Fields {
+		if f.OneOfName == "" || f.ParentIsOptionalEmbed {
+			continue
+		}
+		if _, ok := oneOfs[f.OneOfName]; ok {
+			continue
+		}
+		oneOfs[f.OneOfName] = struct{}{}
+		g.Add(j.Id("obj." + f.OneOfName).Op("=").Nil())
 	}
 
 	// Reset nullable embedded messages in advance: their fields are only assigned when the matching
